@@ -1,13 +1,15 @@
 ----------------------------- MODULE MC_ECDSA -----------------------------
-(* Exhaustive check of ECDSA on one tiny prime-order curve: every private key d, every digest value z that
-   Bits2Int can produce (0 .. 2^QLen - 1, so z >= N is included), every r in 0..2N (state), every s in 0..2N
-   (quantified): the accept set of Verify is exactly the set of signatures Sign can produce. *)
+(* Exhaustive check of ECDSA on one tiny prime-order curve: every private key d, digest values z = 0..N+1 and
+   2^QLen - 1 (the largest value Bits2Int can produce; Verify and Sign depend on z mod N only: SignReduces),
+   every (r, s) in (0..2N)^2 (so 0, N, N+1 and 2^k are inside) and every nonce k in 1..N-1:
+   the accept set of Verify is exactly the set of signatures Sign can produce.
+   State = (d, z, ph); the phase ph only spreads the three groups of invariants over separate states/workers. *)
 EXTENDS ECDSA, TLC
-VARIABLES d, z, r
+VARIABLES d, z, ph
 
 ZMax == Pow2(QLen) - 1
-Init == d \in 1..(N - 1) /\ z \in 0..ZMax /\ r = 0
-Next == r < 2 * N /\ r' = r + 1 /\ UNCHANGED <<d, z>>
+Init == d \in 1..(N - 1) /\ z \in (0..(N + 1)) \cup {ZMax} /\ ph = 0
+Next == ph < 2 /\ ph' = ph + 1 /\ UNCHANGED <<d, z>>
 
 ASSUME H = 1
 \* Bits2Int: leftmost QLen bits, independent of what follows them, always below 2^QLen
@@ -19,17 +21,21 @@ ASSUME \A b1 \in 0..255 : /\ Bits2Int(<<b1>>) = b1 \div Pow2(8 - QLen)
 ASSUME Bits2Int(<<>>) = 0
 
 Sigs == {Sign(d, z, kk) : kk \in 1..(N - 1)}
-SignVerifies == r = 0 => LET Q == Pub(d) IN \A sg \in Sigs : sg[1] = "ok" => Verify(Q, z, sg[2], sg[3])
-SignReduces  == r = 0 => \A kk \in 1..(N - 1) : Sign(d, z, kk) = Sign(d, z % N, kk)
-ExactAccept  == LET sigs == Sigs  Q == Pub(d) IN \A s \in 0..(2 * N) : Verify(Q, z, r, s) <=> (<<"ok", r, s>> \in sigs)
-RangeReject  == LET Q == Pub(d) IN \A s \in 0..(2 * N) : (r \in {0, N, N + 1, 2 * N} \/ s \in {0, N, N + 1, 2 * N}) => ~Verify(Q, z, r, s)
+SignVerifies == ph = 0 => LET Q == Pub(d) IN \A sg \in Sigs : sg[1] = "ok" => Verify(Q, z, sg[2], sg[3])
+SignReduces  == ph = 0 => \A kk \in 1..(N - 1) : Sign(d, z, kk) = Sign(d, z % N, kk)
+ExactAccept  == ph = 1 => LET sigs == Sigs  Q == Pub(d) IN
+                   \A r \in 0..(2 * N), s \in 0..(2 * N) : Verify(Q, z, r, s) <=> (<<"ok", r, s>> \in sigs)
+RangeReject  == ph = 1 => LET Q == Pub(d) IN
+                   \A r \in 0..(2 * N), s \in 0..(2 * N) :
+                       (r \in {0, N, N + 1, 2 * N} \/ s \in {0, N, N + 1, 2 * N}) => ~Verify(Q, z, r, s)
 \* the class of inputs behind finding C18:verifies-at-infinity exists: for every in-range (r, s) exactly one
 \* digest residue sends u1*G + u2*Q to infinity, and Verify rejects it
-InfUnique    == (z = 0 /\ r \in 1..(N - 1)) => LET Q == Pub(d) IN \A s \in 1..(N - 1) :
+InfUnique    == (ph = 2 /\ z = 0) => LET Q == Pub(d) IN \A r \in 1..(N - 1), s \in 1..(N - 1) :
                     LET inf == {zz \in 0..(N - 1) : AtInfinity(Q, zz, r, s)} IN
                     /\ Cardinality(inf) = 1
                     /\ \A zz \in inf : ~Verify(Q, zz, r, s)
 
 \* self-test: a verifier with u1 and u2 exchanged must be refuted
-BadExactAccept == LET sigs == Sigs  Q == Pub(d) IN \A s \in 0..(2 * N) : BadVerify(Q, z, r, s) <=> (<<"ok", r, s>> \in sigs)
+BadExactAccept == ph = 1 => LET sigs == Sigs  Q == Pub(d) IN
+                   \A r \in 0..(2 * N), s \in 0..(2 * N) : BadVerify(Q, z, r, s) <=> (<<"ok", r, s>> \in sigs)
 =============================================================================
